@@ -20,7 +20,7 @@ import (
 func init() { register("C18", checkC18) }
 
 func checkC18(c *core.Ctx) {
-	c.Explainf("C18 (decided clauses). R1 worklist discipline in File.Generate: imports are appended to the worklist only past the miss edge of the `imported[path]` test and the path is marked imported on that path, so every file's imports are expanded once and the loop is bounded by the number of distinct paths. R2: the directory an import path is joined to depends on the worklist element (the importing file), not on a value computed once from the root file. R3e: whatever the form of the search, the set whose membership reports a cycle never gains the target of an edge inside the edge loop (a node is on the path when it is entered, not when it is queued: otherwise a diamond is reported as a cycle). R3 DFS discipline in dgraph.findCycle: the node is pushed on the stack on entry and popped on every non-cycle exit, the cycle test consults the stack before recursing, and nodes already fully explored are not descended into again (otherwise shared sub-graphs are re-walked exponentially). R4: both import modes cover every definition kind of File (combined mode appends every slice-typed field of File but Imports; separate mode namespaces and appends every record/enum kind), and FindCycle runs iff the mode is separate, before any output is written. R5: a graph edge is added for every import occurrence, before the de-duplication `continue`. R6: the generator's source, folded by the evaluator over an import scenario (root -> sub/a.bop -> deep/b.bop -> c.bop, each next to its importer) served from a virtual file system, opens each file relative to its importer, and in both modes the emitted file type-checks; combined mode declares every type the imported files define. NOT decided: 'exactly when cyclic' for files without go_package (node \"\"); wire equivalence with the inlined schema (C01-C03 on the concatenation).")
+	c.Explainf("C18 (decided clauses). R1 worklist discipline in File.Generate: imports are appended to the worklist only past the miss edge of the `imported[path]` test and the path is marked imported on that path, so every file's imports are expanded once and the loop is bounded by the number of distinct paths. R2: the directory an import path is joined to depends on the worklist element (the importing file), not on a value computed once from the root file. R2 also: no map in the worklist loop is keyed by the import string as written (only by the joined path). R3f: AddEdge stores every edge it is given, unconditionally. R3e: whatever the form of the search, the set whose membership reports a cycle never gains the target of an edge inside the edge loop (a node is on the path when it is entered, not when it is queued: otherwise a diamond is reported as a cycle). R3 DFS discipline in dgraph.findCycle: the node is pushed on the stack on entry and popped on every non-cycle exit, the cycle test consults the stack before recursing, and nodes already fully explored are not descended into again (otherwise shared sub-graphs are re-walked exponentially). R4: both import modes cover every definition kind of File (combined mode appends every slice-typed field of File but Imports; separate mode namespaces and appends every record/enum kind), and FindCycle runs iff the mode is separate, before any output is written. R5: a graph edge is added for every import occurrence, before the de-duplication `continue`. R6: the generator's source, folded by the evaluator over an import scenario (root -> sub/a.bop -> deep/b.bop -> c.bop, each next to its importer) served from a virtual file system, opens each file relative to its importer, and in both modes the emitted file type-checks; combined mode declares every type the imported files define. NOT decided: 'exactly when cyclic' for files without go_package (node \"\"); wire equivalence with the inlined schema (C01-C03 on the concatenation).")
 	p := loadRepo(c)
 	if p == nil {
 		return
@@ -186,6 +186,40 @@ func checkC18(c *core.Ctx) {
 				return true
 			})
 		}
+		// R2b: a map that tells files apart is keyed by the joined path, never by
+		// the import string as it is written in the importing file
+		raw := wire.Canon(joinCall.Args[len(joinCall.Args)-1])
+		nKeyed := 0
+		ast.Inspect(loop.Body, func(n ast.Node) bool {
+			ix, ok := n.(*ast.IndexExpr)
+			if !ok {
+				return true
+			}
+			if _, isMap := info.TypeOf(ix.X).Underlying().(*types.Map); !isMap {
+				return true
+			}
+			key := wire.Canon(ix.Index)
+			// a local that is just the raw string
+			if id, ok := ast.Unparen(ix.Index).(*ast.Ident); ok {
+				ast.Inspect(loop.Body, func(m ast.Node) bool {
+					if as, ok := m.(*ast.AssignStmt); ok && len(as.Lhs) == len(as.Rhs) {
+						for i, l := range as.Lhs {
+							if lid, ok := l.(*ast.Ident); ok && info.ObjectOf(lid) == info.ObjectOf(id) && wire.Canon(as.Rhs[i]) == raw {
+								key = raw
+							}
+						}
+					}
+					return true
+				})
+			}
+			if key == raw {
+				nKeyed++
+				c.Check("R2", fmt.Sprintf("the map %s is keyed by the resolved path of the imported file", wire.Canon(ix.X)), p.Pos(ix.Pos()), false,
+					"it is indexed by "+raw+", the import string as written: two files in different directories that spell an import alike (\"./types.bop\") are taken for one and the same file")
+			}
+			return true
+		})
+		_ = nKeyed
 		// every directory a path is joined to inside the loop comes from the
 		// element being expanded (the importing file), at every level
 		nJoin := 0
@@ -453,6 +487,49 @@ func checkC18(c *core.Ctx) {
 		a, ok1 := ast.Unparen(call.Args[0]).(*ast.Ident)
 		b, ok2 := ast.Unparen(call.Args[1]).(*ast.Ident)
 		return ok1 && ok2 && (m == nil || igInfo.ObjectOf(a) == m) && igInfo.ObjectOf(b) == k
+	}
+	// R3f: AddEdge records every edge it is given: no path through it returns
+	// without the store (an edge from a package to itself is a cycle of length
+	// one and must reach the search like any other)
+	if ae := p.FuncDecl(ig, "dgraph.AddEdge"); ae != nil {
+		stores, early := 0, ""
+		var stack []ast.Node
+		ast.Inspect(ae.Body, func(n ast.Node) bool {
+			if n == nil {
+				stack = stack[:len(stack)-1]
+				return true
+			}
+			stack = append(stack, n)
+			switch x := n.(type) {
+			case *ast.AssignStmt:
+				for _, l := range x.Lhs {
+					if ix, ok := ast.Unparen(l).(*ast.IndexExpr); ok {
+						if _, isMap := igInfo.TypeOf(ix.X).Underlying().(*types.Map); isMap {
+							stores++
+							for _, a := range stack[:len(stack)-1] {
+								switch a.(type) {
+								case *ast.IfStmt, *ast.SwitchStmt, *ast.CaseClause:
+									early = "the store of the edge at " + p.Pos(x.Pos()) + " is conditional"
+								}
+							}
+						}
+					}
+				}
+			case *ast.ReturnStmt:
+				if stores == 0 {
+					early = "AddEdge returns at " + p.Pos(x.Pos()) + " before the edge is stored"
+				}
+			}
+			return true
+		})
+		if stores == 0 {
+			c.Undecide("dgraph.AddEdge: no store into the adjacency map found")
+		} else {
+			c.Check("R3f", "AddEdge records every edge it is given", p.Pos(ae.Pos()), early == "",
+				early+": an import that the graph never sees cannot be part of a reported cycle — a file importing itself (or two files of one go package importing each other) generates code that imports its own package")
+		}
+	} else {
+		c.Undecide("dgraph.AddEdge not found")
 	}
 	// R3e, whatever the form of the search (recursive or with its own work
 	// list): the set whose membership reports a cycle (`if _, ok := S[x]; ok
